@@ -75,6 +75,8 @@ TABLE = {
 def main():
     have = sorted(f[:3].upper() for f in os.listdir(os.path.join(HERE, 'checks'))
                   if f[:1] == 'c' and f[1:3].isdigit() and f.endswith('.py'))
+    ready = set(open(os.path.join(HERE, 'checks', 'READY')).read().split())
+    have = [h for h in have if h in ready]
     checks = []
     for pid in sorted(TABLE):
         if pid not in have:
